@@ -45,6 +45,9 @@ CLAIMED = {
  "C17": ("provenance classification of every redirect target (constants, constant prefixes, filter output, filter-only field, tabled off-origin), store rule for the pending federated destination, dominance of the filter's accepting return by its four character tests",
          "Every http.Redirect / Location store in keymasterd has an on-origin constant (prefix) target, destination-filter output, or is one of three tabled by-design off-origin redirects; the pending federated destination only ever stores filter output; the filter returns the client's value only on paths dominated by: leading '/', no leading '//', no backslash in the path part, no control character.",
          "Browser URL resolution is trusted to follow the stated character rules; http.Redirect's path cleaning is accounted for by the no-backslash test. A parser-based (opaque) filter would be reported as a violation rather than analysed.", "DESIGN.md §3 C17"),
+ "C18": ("taint/provenance analysis of every conversion to an html/template trusted-markup type (sanitiser and alphabet-safe tables, parameters followed into all callers), template-engine and writer check of every Execute call, classification of every direct response-body write",
+         "Every operand converted to template.HTML & co. is built only from constants, HTML-escaped values and alphabet-safe encodings (url.URL.String() is not a sanitiser); every page is rendered by html/template; text/template never writes to a response; every direct body write is http.Error, follows a non-HTML content type, is a constant / numeric-prefixed line, or server-produced key material.",
+         "html/template's contextual escaping and the browser's tokenizer are trusted; the sanitiser table is part of the checker.", "DESIGN.md §3 C18"),
  "C12": ("dominance of the token-minting calls by the conjunction of code/client/expiry/redirect/type facts, decision-structure classification of the client-authentication flag, shape check of the PKCE verifier, store-provenance of token fields",
          "Both minting calls of the token endpoint are dominated on all paths by the verified code, client authentication, client==code.sub, strict expiry, equal redirect_uri and the code type; the authentication flag is true only from PKCE (secret-less client) or a non-empty secret; the PKCE verifier compares against the challenge decrypted from the same code; token/code/userinfo fields have the stated provenance (field-store analysis).",
          "Trusts go-jose and JSON encoding. Field provenance is judged per store into the token structs in the current source.", "DESIGN.md §3 C12"),
